@@ -70,8 +70,8 @@ package types
 //@   loop 1 invariant[C13] len(b) > 0 ==> size == vs && l.bytes == b[len(b)-vs:]
 //@   noalloc[C17]
 //   C02: accepted ==> every element with a proper range is a valid value (recursively: validV)
-//@   ensures[C02] err == nil && len(b) > 0 ==> (forall k :: 0 <= k && k < lN(mem(b), lo(b), hi(b)) && lElemOK(mem(b), lo(b), hi(b), k) ==> validV(mem(b), lElemLo(mem(b), lo(b), hi(b), k), lElemHi(mem(b), lo(b), hi(b), k)))
-//@   loop 1 invariant[C02] len(b) > 0 ==> (forall k :: 0 <= k && k < i && lElemOK(mem(b), lo(b), hi(b), k) ==> validV(mem(b), lElemLo(mem(b), lo(b), hi(b), k), lElemHi(mem(b), lo(b), hi(b), k)))
+//@   ensures[C02] err == nil && len(b) > 0 ==> (forall k :: 0 <= k && k < lN(mem(b), lo(b), hi(b)) ==> lElemValid(mem(b), lo(b), hi(b), k))
+//@   loop 1 invariant[C02] len(b) > 0 ==> (forall k :: 0 <= k && k < i ==> lElemValid(mem(b), lo(b), hi(b), k))
 //@   loop 1 invariant[C02] len(b) > 0 ==> ln == lN(mem(b), lo(b), hi(b)) && obj(l.table.table) == obj(b) && lo(l.table.table) == tTab(mem(b), lo(b), hi(b)) && l.table.data == tDS(mem(b), lo(b), hi(b)) && (l.table.big <==> b[len(b)-1] == 71) && lo(l.bytes) == tDat(mem(b), lo(b), hi(b)) && obj(l.bytes) == obj(b)
 //@   assert[C02] after b1: len(b) > 0 ==> (lElemOK(mem(b), lo(b), hi(b), i) ==> obj(b1) == obj(b) && lo(b1) == lElemLo(mem(b), lo(b), hi(b), i) && hi(b1) == lElemHi(mem(b), lo(b), hi(b), i)) && (!lElemOK(mem(b), lo(b), hi(b), i) ==> len(b1) == 0)
 
@@ -140,8 +140,8 @@ package types
 //@   loop 1 invariant[C13] len(b) > 0 ==> size == vs && m.bytes == b[len(b)-vs:]
 //@   noalloc[C17]
 //   C02: accepted ==> every field with a proper offset holds a valid value (recursively: validV)
-//@   ensures[C02] err == nil && len(b) > 0 ==> (forall k :: 0 <= k && k < mN(mem(b), lo(b), hi(b)) && mFieldOK(mem(b), lo(b), hi(b), k) ==> validV(mem(b), tDat(mem(b), lo(b), hi(b)), mFieldHi(mem(b), lo(b), hi(b), k)))
-//@   loop 1 invariant[C02] len(b) > 0 ==> (forall k :: 0 <= k && k < i && mFieldOK(mem(b), lo(b), hi(b), k) ==> validV(mem(b), tDat(mem(b), lo(b), hi(b)), mFieldHi(mem(b), lo(b), hi(b), k)))
+//@   ensures[C02] err == nil && len(b) > 0 ==> (forall k :: 0 <= k && k < mN(mem(b), lo(b), hi(b)) ==> mFieldValid(mem(b), lo(b), hi(b), k))
+//@   loop 1 invariant[C02] len(b) > 0 ==> (forall k :: 0 <= k && k < i ==> mFieldValid(mem(b), lo(b), hi(b), k))
 //@   loop 1 invariant[C02] len(b) > 0 ==> num == mN(mem(b), lo(b), hi(b)) && obj(m.table.table) == obj(b) && lo(m.table.table) == tTab(mem(b), lo(b), hi(b)) && m.table.data == tDS(mem(b), lo(b), hi(b)) && (m.table.big <==> b[len(b)-1] == 81) && lo(m.bytes) == tDat(mem(b), lo(b), hi(b)) && obj(m.bytes) == obj(b)
 
 //@ func (Message).Empty
